@@ -17,6 +17,8 @@ CONFIG = {
                  "ptt.isBannedBy (ban file = its expiry time)", "ptt.getRestrictionReason/getBoardRestrictionReason/CheckPostRestriction",
                  "ptt.checkCooldown, cache.CooldownTimeOf/PosttimesOf/AddCooldownTime/AddPosttimes", "ptt.isFileOwner, Filename_t.CreateTime",
                  "ptt.isReadonlyBoard, types.Cstrcmp/Cstrcasecmp (as equality of C strings / of their ASCII-lower-cased forms)",
+                 "cache.HbflReload / IsHiddenBoardFriend over the shared-memory friend-list row (the list file is the uid each line resolves to; "
+                 "whether the reload replaces the whole row is regenerated from the source)",
                  "bodies of DoPostArticle/Recommend/EditPost/CrossPost: regenerated event lists, interpreted"],
     "assumptions": [
         "valid uid and bid, consistent (bid, board name) pairs (C07's domain); I/O calls of the write path succeed; EditPost is given the "
@@ -24,6 +26,8 @@ CONFIG = {
         "types.NowTS() is non-negative (until 2038) and does not cross a ban expiry / cool-down boundary during one call",
         "default build configuration: USE_NEW_BAN_SYSTEM, REJECT_FLOOD_POST, USE_COOLDOWN, SAFE_ARTICLE_DELETE, USE_SYSOP_EDIT (checked "
         "against the source by theorem source_wrappers and inside the regenerated guards)",
-        "cool-down histories (posting floods) are tied by correspondence only; no theorem is stated over histories",
+        "cool-down histories (posting floods) are tied by correspondence only; friend-list histories have theorems (friend_after_reload, "
+        "removed_friend_refused) and correspondence",
+        "friend-list file lines resolve to accounts through cache.SearchUserRaw (C04's domain); lists without an empty line in the middle",
     ],
 }
